@@ -263,6 +263,27 @@ def run(ctx):
         rep.sample({'elements': [s[2] if s[0] == 't' else s[1] for s in specs], 'pred': p, 'method': method, 'attrs': attrs, 'drop': drop}, cap=5)
         if i % 10 == 0:
             safely(rep, 'construction', check_construction, r)
+        if i % 2 == 0:
+            # construction paths, model vs implementation: a container of either class, built / extended / appended /
+            # inserted from tracts, TRS objects, strings and unacceptable objects
+            is_trs = r.chance(1, 2)
+            self_specs = elems.rand_specs(r, n=r.range(0, 3), kind='r' if is_trs else 't')
+            its = []
+            for _ in range(r.range(0, 4)):
+                k = r.below(8)
+                if k < 3:
+                    its.append(elems.rand_specs(r, n=1, kind='t')[0])
+                elif k < 5:
+                    its.append(elems.rand_specs(r, n=1, kind='r')[0])
+                elif k < 7:
+                    its.append(('s', elems.rand_trs(r)))
+                else:
+                    its.append(('o',))
+            how = r.choice(['construct', 'extend', 'append', 'insert:%d' % r.range(0, 4)])
+            if how.startswith(('append', 'insert')):
+                its = its[:1] or [('o',)]
+            items.append((impl.line_cont_build(is_trs, how, self_specs, its), impl.impl_cont_build(is_trs, how, self_specs, its),
+                          {'op': 'cont.build', 'class': 'TRSList' if is_trs else 'TractList', 'how': how, 'items': [list(x) for x in its]}))
     ctx.compare(items)
 
 
